@@ -45,6 +45,9 @@ func NewStore(dir string) (s *Store, err error) {
 	opts.ValueDir = badgerDir
 	opts.Logger = log.StandardLogger()
 	opts.Options.ValueLogFileSize = 1<<28 - 1
+	// A process killed in the middle of a write leaves an incomplete entry at the value log's end. Without truncating it,
+	// badger refuses to open the database ever again; the entry belongs to a Bundle which was not yet acknowledged.
+	opts.Options.Truncate = true
 	verifTuneOptions(&opts)
 
 	if dirErr := os.MkdirAll(badgerDir, 0700); dirErr != nil {
